@@ -78,7 +78,7 @@ type Model struct {
 }
 
 func (m *Model) TableOfIface(t types.Type) *Table {
-	n, ok := t.(*types.Named)
+	n, ok := types.Unalias(t).(*types.Named)
 	if !ok {
 		return nil
 	}
@@ -89,7 +89,7 @@ func (m *Model) TableOfRow(t types.Type) *Table {
 	if p, ok := t.(*types.Pointer); ok {
 		t = p.Elem()
 	}
-	n, ok := t.(*types.Named)
+	n, ok := types.Unalias(t).(*types.Named)
 	if !ok {
 		return nil
 	}
@@ -166,7 +166,7 @@ func BuildModel(p *Program) *Model {
 				case f.Name() == "Save" || f.Name() == "Insert":
 					if sig.Params().Len() == 2 {
 						if pt, ok := sig.Params().At(1).Type().(*types.Pointer); ok {
-							if rn, ok := pt.Elem().(*types.Named); ok {
+							if rn, ok := types.Unalias(pt.Elem()).(*types.Named); ok {
 								t.Row = rn
 							}
 						}
@@ -267,7 +267,7 @@ func (m *Model) findEntries() {
 					sig := im.Type().(*types.Signature)
 					if sig.Params().Len() == 2 {
 						if pt, ok := sig.Params().At(1).Type().(*types.Pointer); ok {
-							if rn, ok := pt.Elem().(*types.Named); ok {
+							if rn, ok := types.Unalias(pt.Elem()).(*types.Named); ok {
 								ep.Req = rn
 							}
 						}
@@ -450,7 +450,7 @@ func AsBankCall(ci ssa.CallInstruction) string {
 	if !cc.IsInvoke() {
 		return ""
 	}
-	n, ok := cc.Value.Type().(*types.Named)
+	n, ok := types.Unalias(cc.Value.Type()).(*types.Named)
 	if !ok || n.Obj().Pkg() == nil || !isRepoPkgPath(n.Obj().Pkg().Path()) {
 		return ""
 	}
